@@ -298,6 +298,33 @@ theorem eq_coarser_than_norm_witness (R : HashRules) (hr : R.rawArgs "X" = false
     (Val.node "X" none none none [.one "t" (.raw (.int 1)), .one "s" (.raw (.str "a"))]).nf R := by
   simp [Val.nf, nfArgs, Arg.nfItems, itemOne, nfRaw, hr, hl]
 
+/-- what the repair `pending_fixes/C12-dump-raw-type.diff` buys (dump reads `_type`, so no class takes a special branch
+    and the translator emits empty tables): the `type` view is the identity and the round trip is exact on the raw
+    `_type` fields — a Cast without `_type` comes back without one -/
+theorem view_id_of_no_rules (R : TypeRules) (hd : ∀ c, R.isDataType c = false) (hc : ∀ c, R.isCast c = false)
+    (t : Val) (hwf : t.WF) (hobj : t.isObj = true) :
+    t.view R = t ∧ load (realDump R t) = some (some t.norm) := by
+  have h := view_id R hd hc t
+  refine ⟨h, ?_⟩
+  unfold realDump
+  rw [h]
+  exact load_dump t hwf hobj
+
+/-- the audited readers of `.type` / `._type` on cast-class nodes.  After `load` a Cast carries a materialised `_type`
+    (`cast_type_materialised_witness`), a detached copy of its target: code that reads (or mutates) the cast's `type`
+    where its `to` child is meant behaves differently on reloaded trees.  Audited today:
+    * simplify.extract_type — `expression.to if isinstance(expression, exp.Cast) else expression.type`: the `.type` read is
+      the non-cast branch. -/
+def auditedCastTypeReads : List String :=
+  ["sqlglot/optimizer/simplify.py:extract_type:expression.type"]
+
+/-- obligation (finite decision on the regenerated table): no generator / optimizer / dialect site outside this list reads
+    the `type` of a cast-class node, and `Cast.is_type` consults `self.to`; a new reader breaks the build until audited -/
+theorem cast_type_reads_audited :
+    SqlglotModel.Generated.C12.castTypeReads = auditedCastTypeReads ∧
+    SqlglotModel.Generated.C12.castIsTypeUsesTo = true := by
+  decide +kernel
+
 /-- facts re-extracted from sqlglot/serde.py and expressions/core.py on every run: the eight payload keys are pairwise
     distinct (a collision would make two payload fields overwrite each other), the DType marker is the modelled one,
     the guards and the meta comprehensions of dump/load/_load are the modelled ones, and `__reduce__` returns exactly
